@@ -31,8 +31,40 @@ pub fn level_of(s: &str) -> Option<Consistency> {
     })
 }
 
+/// node numbers from 100 up are nodes with an identity of their own: their address does not
+/// depend on the data centre they are listed in, so a layout change can MOVE them between data
+/// centres (watcher arm)
+pub const GLOBAL_NODE: u8 = 100;
+
 pub fn addr(dc: u8, n: u8) -> SocketAddr {
+    if n >= GLOBAL_NODE {
+        return SocketAddr::new(IpAddr::from([10, 250, 0, n - GLOBAL_NODE]), 80);
+    }
     SocketAddr::new(IpAddr::from([10, dc, 0, n]), 80)
+}
+
+/// watcher arm: the layout as the membership snapshot the gossip layer would publish
+fn to_membership(l: &Layout) -> nv::NodeMembership {
+    let mut m = nv::NodeMembership::new();
+    for (dc, nodes) in l {
+        for n in nodes {
+            let id = (*n - GLOBAL_NODE) as u8;
+            m.insert(id, datacake_node::ClusterMember::new(id, addr(*dc, *n), format!("dc-{dc}")));
+        }
+    }
+    m
+}
+
+/// watcher arm: nodes 100..100+k spread over the data centres; the local node (100) stays put
+fn gen_global_layout(rng: &mut impl Rng, local_dc: u8, max_dc: u8, k: u8) -> Layout {
+    let mut l = Layout::new();
+    l.entry(local_dc).or_default().push(GLOBAL_NODE);
+    for n in 1..=k {
+        if rng.gen_bool(0.8) {
+            l.entry(rng.gen_range(0..max_dc)).or_default().push(GLOBAL_NODE + n);
+        }
+    }
+    l
 }
 
 /// A layout: data centre index -> node numbers present (the local node is always listed).
@@ -64,6 +96,11 @@ pub struct Scenario {
     pub initial: Layout,
     pub events: Vec<Ev>,
     pub rng_seed: u64,
+    /// layouts reach the selector through the real membership watcher (as snapshots of the
+    /// membership layer) instead of being installed directly; nodes keep id and address when a
+    /// layout lists them in another data centre
+    #[serde(default)]
+    pub via_watcher: bool,
 }
 
 pub struct C15;
@@ -153,7 +190,10 @@ pub fn judge(level: &str, layout: &Layout, local: SocketAddr, local_dc: u8, res:
                 );
             }
             for (dc, m) in &per_dc {
-                let have = live.iter().filter(|a| matches!(a.ip(), IpAddr::V4(v4) if v4.octets()[1] == *dc)).count();
+                // which data centre an address belongs to is read off the layout (the address of a
+                // node of the watcher arm does not name its data centre)
+                let in_dc: BTreeSet<SocketAddr> = layout.get(dc).map(|v| v.iter().map(|n| addr(*dc, *n)).collect()).unwrap_or_default();
+                let have = live.iter().filter(|a| in_dc.contains(**a)).count();
                 if have < *m {
                     out.violate(
                         format!("C15/fewer-live-peers-than-level-requires/{family}"),
@@ -206,6 +246,7 @@ fn enum_cases() -> &'static Vec<Scenario> {
                                         // the 2 s cache must not hide the second selection
                                         events: vec![Ev::Get { level: l1.to_string() }, Ev::Sleep { ms: 2100 }, Ev::Get { level: l2.to_string() }],
                                         rng_seed: 1,
+                                        via_watcher: false,
                                     });
                                 }
                             }
@@ -333,7 +374,7 @@ impl Check for C15 {
         "E1 single-node engine: the real selector actor (start_node_selector + DCAwareSelector) driven through NodeSelectorHandle::get_nodes / set_nodes in virtual time, data-centre choice from the seeded hook PRNG"
     }
     fn rule(&self) -> &'static str {
-        "Cases: (a) enumerated: every layout of up to 3 data centres x 3 nodes, every local position, every ordered pair of consistency levels selected one after the other across the 2 s cache boundary (13 056 two-step histories, complete); (b) seeded: layouts up to 4 DCs x 4 nodes, 3-25 steps of get_nodes(level) / set_nodes(new layout: nodes and whole data centres leaving and returning) / virtual sleeps across the cache expiry. Oracle per selection against the currently installed layout: only current members other than the local node, no duplicates, at least (exactly, for One/Two/Three) the required number, per-DC majorities for Local/EachQuorum; NotEnoughNodes only when too few other members exist. Non-trivial = >= 2 selections and (a membership update or a cursor-advancing level before). Distinct = hash of the (event, result) sequence."
+        "Watcher arm (one seeded case in five): layouts reach the selector as membership snapshots through the real watch_membership_changes; nodes keep id and address, and half of the updates only MOVE nodes between data centres. Cases: (a) enumerated: every layout of up to 3 data centres x 3 nodes, every local position, every ordered pair of consistency levels selected one after the other across the 2 s cache boundary (13 056 two-step histories, complete); (b) seeded: layouts up to 4 DCs x 4 nodes, 3-25 steps of get_nodes(level) / set_nodes(new layout: nodes and whole data centres leaving and returning) / virtual sleeps across the cache expiry. Oracle per selection against the currently installed layout: only current members other than the local node, no duplicates, at least (exactly, for One/Two/Three) the required number, per-DC majorities for Local/EachQuorum; NotEnoughNodes only when too few other members exist. Non-trivial = >= 2 selections and (a membership update or a cursor-advancing level before). Distinct = hash of the (event, result) sequence."
     }
     fn assumptions(&self) -> Vec<String> {
         vec![
@@ -367,6 +408,39 @@ impl Check for C15 {
             return serde_json::to_value(&e[idx as usize]).unwrap();
         }
         let mut rng = rng_from(case_seed(seed, idx));
+        if mix(0x3A7C, idx) % 5 == 0 {
+            // watcher arm: membership snapshots through the real watch_membership_changes; nodes
+            // join, leave and MOVE between data centres keeping id and address
+            let max_dc = rng.gen_range(1..=3u8);
+            let k = rng.gen_range(1..=6u8);
+            let local_dc = rng.gen_range(0..max_dc);
+            let initial = gen_global_layout(&mut rng, local_dc, max_dc, k);
+            let mut events = Vec::new();
+            for _ in 0..rng.gen_range(3..=20) {
+                match rng.gen_range(0..10) {
+                    0..=5 => events.push(Ev::Get { level: LEVELS[rng.gen_range(0..8)].to_string() }),
+                    6..=7 => {
+                        let prev = events.iter().rev().find_map(|e| if let Ev::Set { layout } = e { Some(layout.clone()) } else { None }).unwrap_or_else(|| initial.clone());
+                        // half of the updates only move nodes between data centres
+                        let next = if rng.gen_bool(0.5) {
+                            let mut l = Layout::new();
+                            for (dc, nodes) in &prev {
+                                for n in nodes {
+                                    let d = if *n == GLOBAL_NODE || rng.gen_bool(0.5) { *dc } else { rng.gen_range(0..max_dc) };
+                                    l.entry(d).or_default().push(*n);
+                                }
+                            }
+                            l
+                        } else {
+                            gen_global_layout(&mut rng, local_dc, max_dc, k)
+                        };
+                        events.push(Ev::Set { layout: next })
+                    },
+                    _ => events.push(Ev::Sleep { ms: [100, 1900, 2100, 5000][rng.gen_range(0..4)] }),
+                }
+            }
+            return serde_json::to_value(Scenario { local_dc, local_pos: GLOBAL_NODE, initial, events, rng_seed: rng.gen(), via_watcher: true }).unwrap();
+        }
         let max_dc = rng.gen_range(1..=4u8);
         let max_n = rng.gen_range(1..=4u8);
         let local_dc = rng.gen_range(0..max_dc);
@@ -385,7 +459,7 @@ impl Check for C15 {
                 _ => events.push(Ev::Sleep { ms: [100, 1900, 2100, 5000][rng.gen_range(0..4)] }),
             }
         }
-        serde_json::to_value(Scenario { local_dc, local_pos, initial, events, rng_seed: rng.gen() }).unwrap()
+        serde_json::to_value(Scenario { local_dc, local_pos, initial, events, rng_seed: rng.gen(), via_watcher: false }).unwrap()
     }
     fn isolate(&self, scenario: &Value) -> bool {
         scenario.get("real_node").is_some()
@@ -412,7 +486,25 @@ impl Check for C15 {
         rt.block_on(async {
             let handle = nv::start_node_selector(local, Cow::Owned(format!("dc-{}", sc.local_dc)), DCAwareSelector::default()).await;
             let mut layout = sc.initial.clone();
-            nv::set_nodes(&handle, to_map(&layout)).await;
+            // watcher arm: the real membership watcher turns snapshots into selector updates
+            let member_tx = if sc.via_watcher {
+                let (mtx, mrx) = tokio::sync::watch::channel(to_membership(&layout));
+                let (ctx, _crx) = tokio::sync::watch::channel(datacake_node::MembershipChange::default());
+                tokio::spawn(nv::watch_membership_changes(
+                    0,
+                    datacake_node::RpcNetwork::default(),
+                    handle.clone(),
+                    datacake_node::ClusterStatistics::default(),
+                    tokio_stream::wrappers::WatchStream::new(mrx),
+                    ctx,
+                ));
+                tokio::time::sleep(Duration::from_millis(1)).await;
+                out.probe("watcher_arm_case");
+                Some(mtx)
+            } else {
+                nv::set_nodes(&handle, to_map(&layout)).await;
+                None
+            };
             let mut hist = format!("layout {:?}, local dc-{}#{}", layout, sc.local_dc, sc.local_pos);
             let mut flood: Vec<tokio::task::JoinHandle<()>> = Vec::new();
             for ev in &sc.events {
@@ -456,8 +548,17 @@ impl Check for C15 {
                         let after: BTreeSet<_> = l.iter().flat_map(|(d, v)| v.iter().map(move |n| (*d, *n))).collect();
                         out.fault_n("node_left", before.difference(&after).count() as u64);
                         out.fault_n("node_joined", after.difference(&before).count() as u64);
+                        let moved = before.iter().filter(|(d, n)| *n >= GLOBAL_NODE && !after.contains(&(*d, *n)) && after.iter().any(|(_, m)| m == n)).count();
+                        out.fault_n("node_moved_to_another_data_centre", moved as u64);
                         layout = l.clone();
-                        nv::set_nodes(&handle, to_map(&layout)).await;
+                        match &member_tx {
+                            Some(tx) => {
+                                let _ = tx.send(to_membership(&layout));
+                                // the watcher and the selector take the update in
+                                tokio::time::sleep(Duration::from_millis(1)).await;
+                            },
+                            None => nv::set_nodes(&handle, to_map(&layout)).await,
+                        }
                         sets += 1;
                         hist.push_str(&format!(" -> set({:?})", layout));
                         tr.u64(3);
